@@ -3,11 +3,7 @@
 // Contracts of the relayer keeper entry points called from x/goat and app/ante.go (comment-only).
 package keeper
 
-// TRUSTED frame: adds/removes voters (Voters map) and the pending queue.
-//@ func (Keeper).ProcessRelayerRequest
-//@ property C09
-//@ trusted
-//@ modifies st.relayer.Voters, st.relayer.Queue
+// (Keeper).ProcessRelayerRequest: the verified contract is in contracts_verif_group.go (C16, C09)
 
 // verified: the current relayer proposer is the decoded Proposer field of the stored relayer record
 //@ func (Keeper).GetCurrentProposer
